@@ -41,6 +41,7 @@ type Lemma struct {
 	Pkg     string
 	Specs   map[string]*SpecFn
 	Uses    []string // contracts of these functions are instantiated as assumptions
+	UseStmts []string
 }
 
 type Contract struct {
@@ -191,7 +192,7 @@ func (cs *ContractSet) parseFile(path, pkg string) error {
 			case "var":
 				lem.Vars = append(lem.Vars, strings.Fields(d.text)...)
 			case "uses":
-				lem.Uses = append(lem.Uses, strings.Fields(d.text)...)
+				lem.UseStmts = append(lem.UseStmts, d.text)
 			case "assumes", "shows":
 				n, err := parseSpec(d.text)
 				if err != nil {
